@@ -27,6 +27,7 @@ const (
 	OpUpdate     = "update"     // new value for a present key
 	OpInsertSame = "insertsame" // re-insert a present key with its current value
 	OpDelete     = "delete"     // delete a present key with its value
+	OpDeleteTop  = "deletetop"  // delete the present key of the highest layer (K odd: the largest such key, else the smallest)
 	OpDelWrong   = "delwrong"   // delete a present key with a non-matching value: must fail
 	OpDelAbsent  = "delabsent"  // delete an absent key: must fail
 	OpGet        = "get"        // lookup pool key K
@@ -155,7 +156,12 @@ func GenConfig(t *rapid.T, tier string, o GenOpts) Config {
 // GenLayerTable draws a layer per key: mostly geometric with a generated
 // base, so that trees of 3-5 levels with pass-through nodes are common.
 func GenLayerTable(t *rapid.T, n int) []uint8 {
-	style := rapid.IntRange(0, 3).Draw(t, "layerstyle")
+	style := rapid.IntRange(0, 4).Draw(t, "layerstyle")
+	tower := -1
+	if style == 4 {
+		// flat with a single tower at an edge or anywhere: a top node with one entry and one-sided subtrees
+		tower = rapid.SampledFrom([]int{0, n - 1, rapid.IntRange(0, n-1).Draw(t, "towerpos")}).Draw(t, "tower")
+	}
 	out := make([]uint8, n)
 	for i := range out {
 		switch style {
@@ -166,6 +172,12 @@ func GenLayerTable(t *rapid.T, n int) []uint8 {
 		case 2: // mostly flat with rare spikes (pass-through chains)
 			if rapid.IntRange(0, 7).Draw(t, "spike") == 0 {
 				out[i] = uint8(rapid.IntRange(1, 5).Draw(t, "l"))
+			}
+		case 4:
+			if i == tower {
+				out[i] = uint8(rapid.IntRange(2, 5).Draw(t, "towerheight"))
+			} else {
+				out[i] = geo(t, 3, 1)
 			}
 		default: // uniform small
 			out[i] = uint8(rapid.IntRange(0, 3).Draw(t, "l"))
@@ -186,14 +198,14 @@ func geo(t *rapid.T, base, max int) uint8 {
 type OpWeights map[string]int
 
 var DefaultWeights = OpWeights{
-	OpInsert: 30, OpInsertNew: 30, OpUpdate: 9, OpInsertSame: 4, OpDelete: 30,
+	OpInsert: 30, OpInsertNew: 30, OpUpdate: 9, OpInsertSame: 4, OpDelete: 30, OpDeleteTop: 5,
 	OpDelWrong: 3, OpDelAbsent: 3, OpGet: 8, OpSize: 2, OpIter: 3, OpIterStop: 2,
 	OpClone: 6, OpPersist: 12, OpReload: 9, OpReloadJSON: 4, OpDrain: 1,
 }
 
 func weightedKinds(w OpWeights) []string {
 	var out []string
-	for _, k := range []string{OpInsert, OpInsertNew, OpUpdate, OpInsertSame, OpDelete, OpDelWrong, OpDelAbsent,
+	for _, k := range []string{OpInsert, OpInsertNew, OpUpdate, OpInsertSame, OpDelete, OpDeleteTop, OpDelWrong, OpDelAbsent,
 		OpGet, OpSize, OpIter, OpIterStop, OpClone, OpPersist, OpReload, OpReloadJSON, OpDrain, OpPersistFail} {
 		for i := 0; i < w[k]; i++ {
 			out = append(out, k)
@@ -214,7 +226,7 @@ func GenProgram(t *rapid.T, w OpWeights, maxOps, nslots int) []Op {
 		case OpInsert, OpInsertNew, OpUpdate:
 			op.K = rapid.IntRange(0, 63).Draw(t, "k")
 			op.V = rapid.IntRange(0, 5).Draw(t, "v")
-		case OpInsertSame, OpDelete, OpDelAbsent, OpGet:
+		case OpInsertSame, OpDelete, OpDeleteTop, OpDelAbsent, OpGet:
 			op.K = rapid.IntRange(0, 63).Draw(t, "k")
 		case OpDelWrong:
 			op.K = rapid.IntRange(0, 63).Draw(t, "k")
